@@ -1223,6 +1223,12 @@ func (env *Environment) subscribeToWfState(taskman *task.Manager) {
 										log.WithField("partition", env.id).
 											WithField("level", infologger.IL_Devel).
 											Info("skipped requested transition to ERROR: environment already in ERROR state")
+									} else if env.Sm.Current() == "DONE" {
+										// torn down while we were waiting for our turn: DONE is terminal,
+										// forcing ERROR here would bring the environment back to life
+										log.WithField("partition", env.id).
+											WithField("level", infologger.IL_Devel).
+											Info("skipped requested transition to ERROR: environment already torn down")
 									} else {
 										log.WithField("partition", env.id).
 											WithError(err).
